@@ -115,3 +115,16 @@ PROPS["C38"] = dict(
     outside="tables with more than 3 entries; pending entries applied during iteration (covered under C37); closest() projection (same iterator, different map)",
     stubs=[TRACING, WEBTIME], assumptions=[NOSHA, FORGET], hooks=[KADHOOK],
 )
+
+PROPS["C42"] = dict(
+    group="kad", files=["c42.rs"],
+    explanation=(
+        "kad record lifetimes with time as a symbolic variable (web-time shim clock): record_to_proto's wire ttl for "
+        "every (now, expiry) pair incl. sub-second, already-expired and > 2^32 s lifetimes (ttl 0 iff no expiry; never "
+        "more than the remaining whole seconds, never wraps); record_from_proto's expiry for every wire ttl; the "
+        "expiry merge used by Behaviour::record_received (earliest_expiry) for every pair of optional instants "
+        "(<= sender's, <= local, None only if both None); exp_decrease never lengthens; and the one-hop composition."),
+    bounds="instants = (secs < 2^40 [+2^41 for the saturation case], nanos < 10^9), now >= 2^10 s; all u32 wire ttls; all Option<Instant> pairs; zero transit time in the one-hop harness",
+    outside="that record_received passes the right `now`/num_beyond_k and is the only store path (Behaviour state is hash maps); MemoryStore expiry handling (C41); provider records",
+    stubs=[TRACING, WEBTIME], assumptions=["clock readings are non-decreasing u64 nanoseconds (shim); property is translation invariant"], hooks=[KADHOOK],
+)
